@@ -21,6 +21,7 @@ import (
 	"pgregory.net/rapid"
 
 	"github.com/sassoftware/relic/v8/config"
+	"github.com/sassoftware/relic/v8/xverif/amqpfake"
 	"github.com/sassoftware/relic/v8/xverif/evid"
 	"github.com/sassoftware/relic/v8/xverif/keys"
 	"github.com/sassoftware/relic/v8/xverif/known"
@@ -58,6 +59,9 @@ func TestMain(m *testing.M) {
 		panic(err)
 	}
 	if err := env.StartServer(); err != nil {
+		panic(err)
+	}
+	if broker, err = amqpfake.Start(); err != nil {
 		panic(err)
 	}
 	client = env.HTTPClient()
@@ -100,7 +104,10 @@ type result struct {
 	err         error
 }
 
-var sinkStates = []string{"file", "file", "missing-dir", "path-is-directory", "dev-full", "amqp-refusing", "file+amqp-refusing"}
+var sinkStates = []string{"file", "file", "missing-dir", "path-is-directory", "dev-full", "amqp-refusing", "file+amqp-refusing",
+	"file+broker-ack", "file+broker-nack", "file+broker-refuse", "file+broker-drop", "broker-refuse"}
+
+var broker *amqpfake.Broker
 
 var counter int
 
@@ -127,11 +134,20 @@ func setSink(state, dir string) (auditPath string) {
 	case "file+amqp-refusing":
 		cfg.AuditFile = auditPath
 		cfg.Amqp = &config.AmqpConfig{URL: "amqp://127.0.0.1:1/"}
+	case "file+broker-ack", "file+broker-nack", "file+broker-refuse", "file+broker-drop", "broker-refuse":
+		// a broker that takes the connection and then confirms, rejects, refuses with a
+		// channel exception, or drops the connection without confirming
+		cfg.AuditFile = auditPath
+		if state == "broker-refuse" {
+			cfg.AuditFile = ""
+		}
+		broker.SetMode(state[strings.LastIndex(state, "-")+1:])
+		cfg.Amqp = &config.AmqpConfig{URL: broker.URL()}
 	}
 	return
 }
 
-func sinkWorks(state string) bool { return state == "file" }
+func sinkWorks(state string) bool { return state == "file" || state == "file+broker-ack" }
 
 func readRecords(path string) (records []map[string]any, malformed []string) {
 	if path == "/dev/full" {
@@ -302,6 +318,12 @@ func TestC06_ServerHistories(t *testing.T) {
 				if len(recs) != 0 && sinkWorks(state) {
 					failf("request %s failed with %d but left %d audit records", r.spec.Filename, r.status, len(recs))
 				}
+			}
+		}
+		if state == "file+broker-ack" {
+			// every configured sink holds the record: the broker confirmed one message per signature
+			if bodies, confirmed := broker.Bodies(); confirmed != ok2xx || len(bodies) != ok2xx {
+				failf("%d successful responses but the broker received %d messages and confirmed %d", ok2xx, len(bodies), confirmed)
 			}
 		}
 		if sinkWorks(state) && len(records) != ok2xx {
